@@ -74,6 +74,17 @@ class Check:
             self.error('instance floor: %s matched %d sites, confirmed floor '
                        'is %d' % (name, count, minimum))
 
+    def need(self, name, count, minimum, rule, construct, statement, loc='',
+             missing=''):
+        """A floor on constructs that *carry the behaviour* inside a function
+        that exists (the store that writes an attribute, the loop that rejects a
+        draw): when they are gone the behaviour is gone, which is a violation of
+        the property and not a gap of the analysis."""
+        self.floors.append(dict(name=name, count=count, minimum=minimum))
+        self.require(count >= minimum, rule, construct, statement, loc,
+                     fail_detail=missing or '%s: found %d, the behaviour needs %d'
+                     % (name, count, minimum))
+
     # -- finishing -----------------------------------------------------
     def finish(self):
         wall = time.time() - self.t0
